@@ -119,6 +119,8 @@ pub fn spaces(tier: Tier, _seed: u64) -> Vec<Box<dyn Space>> {
         gprog::spines(3, false, true, true, oracle),
         gprog::grid(0, true, true, oracle),
         gprog::grid(1, true, true, oracle),
+        gprog::annotated(oracle),
+        gprog::annotated_bodies(oracle),
         gprog::sequences(1, true, true, oracle),
         gprog::sequences(2, true, true, oracle),
         expr_space("two_op"),
